@@ -34,10 +34,26 @@ import (
 	"github.com/dtn7/dtn7-go/pkg/routing"
 )
 
-func pfNode(i int) string         { return fmt.Sprintf("dtn://n%d/", i) }
+// pfNaming > 0 (generator C19names, prophet_names.go): the nodes 1..8 carry nearly colliding node names
+// (letter case, prefixes, the same number under the other URI scheme); node identity stays the index.
+var pfNaming int
+
+func pfNode(i int) string {
+	if pfNaming > 0 && i >= 1 && i <= 8 {
+		return pfNameTab[pfNaming][i]
+	}
+	return fmt.Sprintf("dtn://n%d/", i)
+}
 func pfEID(i int) bpv7.EndpointID { return MustEID(pfNode(i)) }
 func pfIdx(e bpv7.EndpointID) int {
 	var i int
+	if pfNaming > 0 {
+		for k := 1; k <= 8; k++ {
+			if pfNameTab[pfNaming][k] == e.String() {
+				return k
+			}
+		}
+	}
 	if _, err := fmt.Sscanf(e.String(), "dtn://n%d/", &i); err != nil {
 		return 9999
 	}
